@@ -1034,6 +1034,30 @@ def eval_simbev(case):
                     sc2, _ = run_generate(base_ns(**kw2))
                     if json.dumps(sc2) != json.dumps(sc):
                         viol.append(("pure", "C19:simbev_same_seed_differs", "second run differs"))
+                # a vehicle's events depend on its own file only: generate again from the LAST file alone
+                files = simbev_files(case)
+                if len(files) >= 2 and len(set(f[1] for f in files)) == len(files):
+                    reg, stem, rows = files[-1]
+                    one = copy.deepcopy(case)
+                    one["regions"] = {reg: {stem: rows}}
+                    tmp1 = Path(tempfile.mkdtemp(prefix="c19c"))
+                    try:
+                        try:
+                            sc1, _ = run_generate(base_ns(**write_simbev_case(one, tmp1)))
+                        except Exception:
+                            sc1 = None
+                    finally:
+                        shutil.rmtree(tmp1, ignore_errors=True)
+                    if sc1 is not None:
+                        for vid in sc1["components"]["vehicles"]:
+                            mine = [e for e in sc1["events"]["vehicle_events"] if e["vehicle_id"] == vid]
+                            full_ = [e for e in sc["events"]["vehicle_events"] if e["vehicle_id"] == vid]
+                            if vid in sc["components"]["vehicles"] and json.dumps(mine, sort_keys=True) != json.dumps(
+                                    full_, sort_keys=True):
+                                viol.append(("pure", "C19:simbev_vehicle_depends_on_other_files",
+                                             "%s: %d events from its own file alone, %d (different) in the whole directory"
+                                             % (vid, len(mine), len(full_))))
+                        stats.append("simbev_single_file_compared")
                 if any("_" in k[len(v["vehicle_type"]):].replace("kWh", "")[7:] for k, v in
                        sc["components"]["vehicles"].items()):
                     stats.append("simbev_renamed_vehicle")
